@@ -40,6 +40,11 @@ type TLS struct {
 }
 
 func backend(svc, port string) networking.IngressBackend {
+	if strings.HasPrefix(svc, "res:") {
+		// a resource backend (not a Service)
+		g := "example.io"
+		return networking.IngressBackend{Resource: &api.TypedLocalObjectReference{APIGroup: &g, Kind: "Bucket", Name: svc[4:]}}
+	}
 	b := networking.IngressBackend{Service: &networking.IngressServiceBackend{Name: svc}}
 	if n := intstr.Parse(port); n.Type == intstr.Int {
 		b.Service.Port.Number = n.IntVal
